@@ -4,8 +4,9 @@
 import json, os, re, shutil, sys
 
 prop, mn = sys.argv[1], sys.argv[2]
-src = "/tmp/mut-%s-out/%s" % (prop, mn)
-dst = "/verif/seeded/%s-%s" % (prop, mn)
+rnd = os.environ.get("ROUND", "")            # "" = first round (/tmp/mut-Cxx-out), "2" = second round (/tmp/mut2-Cxx-out)
+src = "/tmp/mut%s-%s-out/%s" % (rnd, prop, mn)
+dst = "/verif/seeded/%s-%s%s" % (prop, ("r%s" % rnd) if rnd else "", mn)
 os.makedirs(dst, exist_ok=True)
 for f in os.listdir(src):
     if os.path.isfile(os.path.join(src, f)):
@@ -19,14 +20,14 @@ if cmd is None:
 # destination of demo files: a path mentioned as <worktree>/<rel>/file.go
 for f in os.listdir(src):
     if f.endswith(".go"):
-        mm = re.search(r"/tmp/mut-%s/(\S*?)%s" % (prop, re.escape(f)), txt)
+        mm = re.search(r"/tmp/mut%s-%s/(\S*?)%s" % (rnd, prop, re.escape(f)), txt)
         rel = (mm.group(1) if mm else "")
         mm2 = re.search(r"(internal/\w+|cfgerrors)/%s" % re.escape(f), txt)
         if not rel and mm2:
             rel = mm2.group(1) + "/"
         dest[f] = rel + f
 notes = open(os.path.join(src, "notes.md")).read() if os.path.exists(os.path.join(src, "notes.md")) else ""
-meta = dict(id="%s-%s" % (prop, mn), breaks_property=prop, demo_cmd=cmd, demo_dest=dest,
+meta = dict(id=os.path.basename(dst), breaks_property=prop, demo_cmd=cmd, demo_dest=dest,
             needs_to_manifest="see notes.md", produced_by="independent sub-agent given only the property text and a scratch worktree",
             confirmed=None, caught_by=None)
 json.dump(meta, open(os.path.join(dst, "meta.json"), "w"), indent=1)
